@@ -84,3 +84,246 @@ Qed.
 Example c10_wf_example : wf_round {| rr_probes := [Awaited {| p_sequence := 1; p_identifier := 0; p_src_port := 0; p_dest_port := 0; p_ttl := 3; p_round := 0; p_sent := 0; p_flags := 0 |}];
                                      rr_largest_ttl := 3; rr_reason := TargetFound |}.
 Proof. unfold wf_round, ttls_ok. cbn. split; [repeat constructor; lia|]. split; [lia|]. right. exists 3. split; [left; reflexivity|lia]. Qed.
+
+(* ====================================================================================================================
+   Extension: "gap-free", "ends at the target", is_target / is_in_round, over ALL histories and whole runs.
+   Aggregator side: Proofs/HopWindow.v.  Strategy side, on the observation log of Proofs/RunLog.v: Proofs/TargetEnd.v.
+   RInv f: the latest round's path length is 0 or lies inside the window (lowest <= it <= highest). *)
+From TV Require Import Core.TracerState Proofs.RoundHistory Proofs.FlowAttr Proofs.RunLog Proofs.RunLogProps Proofs.HopWindow Proofs.TargetEnd.
+
+(* a ttl that no round of the history probed still has its default hop (all counters zero, no address): the
+   aggregator only ever writes the slots of the ttls a round's probes carry *)
+Theorem c10_never_probed_is_default : forall rs ms f t, fs_run (flow_state_new ms) rs = Ok f -> 1 <= t <= 254 ->
+  (forall r, In r rs -> ~ In t (ttls (rr_probes r))) ->
+  nth_error (fs_hops f) (Z.to_nat (t - 1)) = Some hop_default.
+Proof. exact never_probed_is_default. Qed.
+
+(* State::hops() is positional: element k is the slot of ttl lowest + k, for exactly the ttls lowest..highest -
+   no entry above the greatest path length ever reported, none below the least ttl ever probed *)
+Theorem c10_view_by_position : forall f hs, WInv f -> fs_hops_view f = Ok hs -> forall k h,
+  nth_error hs k = Some h <->
+  (fs_lowest_ttl f <> 0 /\ fs_lowest_ttl f + Z.of_nat k <= fs_highest_ttl f /\
+   nth_error (fs_hops f) (Z.to_nat (fs_lowest_ttl f + Z.of_nat k - 1)) = Some h).
+Proof. exact view_nth. Qed.
+
+(* GAP-FREE: a ttl inside the window that no round probed is PRESENT in hops() - as a hop with zero sent / received
+   and no address - rather than missing *)
+Theorem c10_gap_free : forall rs ms f hs t, Forall wf_round rs -> fs_run (flow_state_new ms) rs = Ok f ->
+  fs_hops_view f = Ok hs -> fs_lowest_ttl f <> 0 -> fs_lowest_ttl f <= t <= fs_highest_ttl f ->
+  (forall r, In r rs -> ~ In t (ttls (rr_probes r))) ->
+  nth_error hs (Z.to_nat (t - fs_lowest_ttl f)) = Some hop_default /\
+  h_sent hop_default = 0 /\ h_recv hop_default = 0 /\ h_addrs hop_default = [].
+Proof. exact gap_free. Qed.
+
+(* after any history of well-formed rounds the latest round's path length is 0 or inside the window *)
+Theorem c10_round_marker_in_window : forall rs f f', WInv f -> RInv f -> Forall wf_round rs -> fs_run f rs = Ok f' ->
+  WInv f' /\ RInv f'.
+Proof. exact fs_run_rinv. Qed.
+
+(* State::target_hop() never fails and is the slot of the latest round's path length (slot 0 when that is 0) *)
+Theorem c10_target_hop_slot : forall f, WInv f -> RInv f ->
+  exists h, fs_target_hop f = Ok h /\
+    nth_error (fs_hops f) (Z.to_nat (fs_highest_ttl_for_round f - 1)) = Some h /\
+    (h_ttl h = 0 \/ h_ttl h = Z.max 1 (fs_highest_ttl_for_round f)).
+Proof. exact target_hop_slot. Qed.
+
+(* ENDS AT THE TARGET: when the latest round reported a path length L > 0, target_hop() is the element of hops() at
+   position L - lowest, and it is the LAST element of hops() whenever L is the greatest length reported so far *)
+Theorem c10_target_hop_in_view : forall f hs, WInv f -> RInv f -> fs_hops_view f = Ok hs -> 0 < fs_highest_ttl_for_round f ->
+  exists h, fs_target_hop f = Ok h /\
+    nth_error hs (Z.to_nat (fs_highest_ttl_for_round f - fs_lowest_ttl f)) = Some h /\
+    (fs_highest_ttl_for_round f = fs_highest_ttl f -> hs <> [] /\ last hs hop_default = h).
+Proof. exact target_hop_in_view. Qed.
+
+(* State::is_target / is_in_round for the hops of hops(), by position: a probed hop at position k is the target iff
+   lowest + k is the latest round's path length and is in the round iff lowest + k does not exceed it; a hop that was
+   never probed (tag 0) counts as in the round, and as the target exactly when the latest round reported length 0 *)
+Theorem c10_is_target_is_in_round : forall f hs k h, WInv f -> RInv f -> fs_hops_view f = Ok hs -> nth_error hs k = Some h ->
+  (h_ttl h <> 0 ->
+     h_ttl h = fs_lowest_ttl f + Z.of_nat k /\
+     fs_is_target f h = (fs_highest_ttl_for_round f =? fs_lowest_ttl f + Z.of_nat k) /\
+     fs_is_in_round f h = (fs_lowest_ttl f + Z.of_nat k <=? fs_highest_ttl_for_round f)) /\
+  (h_ttl h = 0 ->
+     fs_is_target f h = (fs_highest_ttl_for_round f =? 0) /\ fs_is_in_round f h = true).
+Proof. exact view_flags. Qed.
+
+(* no probed hop beyond the latest round's path length is the target hop, or in the round *)
+Theorem c10_beyond_round_not_target : forall f hs k h, WInv f -> RInv f -> fs_hops_view f = Ok hs -> nth_error hs k = Some h ->
+  h_ttl h <> 0 -> fs_highest_ttl_for_round f < fs_lowest_ttl f + Z.of_nat k ->
+  fs_is_target f h = false /\ fs_is_in_round f h = false.
+Proof. exact beyond_round_not_target. Qed.
+
+(* for arbitrary well-formed rounds fed to State::update_from_round the restriction "probed" above is necessary:
+   rounds [probes ttl 1, length 3] then [probes ttl 1, length 0] leave slots 2 and 3 unprobed inside the window and
+   is_target answers true for them (it compares the round's length 0 with the default ttl tag 0) *)
+Theorem c10_target_beyond_round_refuted :
+  exists rs f hs k h, Forall wf_round rs /\ fs_run (flow_state_new 10) rs = Ok f /\ fs_hops_view f = Ok hs /\
+    nth_error hs k = Some h /\ fs_highest_ttl_for_round f < fs_lowest_ttl f + Z.of_nat k /\ fs_is_target f h = true.
+Proof. exact target_beyond_round_refuted. Qed.
+
+(* contig ft r: the ttls of the round's probes are ft, ft + 1, ... in order;  covered 0 rs: no round reports a path
+   length beyond the farthest ttl probed so far.  For such histories (the strategy's: c10_run_rounds_shaped) EVERY
+   hop of hops() carries its own ttl, the first is ft, and when the latest round reported L > 0 the target hop is the
+   hop tagged L; is_target holds for exactly that hop of hops() and is_in_round for exactly the hops up to it *)
+Theorem c10_strategy_shaped_table : forall ft rs ms f hs, 1 <= ft ->
+  Forall wf_round rs -> Forall (contig ft) rs -> covered 0 rs ->
+  fs_run (flow_state_new ms) rs = Ok f -> fs_hops_view f = Ok hs ->
+  (forall k h, nth_error hs k = Some h -> h_ttl h = ft + Z.of_nat k /\ fs_lowest_ttl f = ft) /\
+  (0 < fs_highest_ttl_for_round f ->
+     exists h, fs_target_hop f = Ok h /\ h_ttl h = fs_highest_ttl_for_round f /\
+       nth_error hs (Z.to_nat (fs_highest_ttl_for_round f - ft)) = Some h /\
+       forall k h', nth_error hs k = Some h' ->
+         (fs_is_target f h' = true <-> Z.of_nat k = fs_highest_ttl_for_round f - ft) /\
+         (fs_is_in_round f h' = true <-> Z.of_nat k <= fs_highest_ttl_for_round f - ft)).
+Proof. exact strategy_shaped_table. Qed.
+
+(* ---- the strategy side, over whole runs.  run_log c t0 is: everything that crosses the Network interface and every
+   clock reading, in order;  ghost_after c t0 l: the fold of the log prefix l (probes sent / genuine answers of the
+   round in progress, established target distance);  largest_of: the established distance if any, else
+   min(last ttl sent, farthest answered ttl + 1), else 0 ---- *)
+
+(* every round of every run reports exactly largest_of the log before its publication *)
+Theorem c10_run_publish_largest : forall c t0 is l1 r now adv l2, Accept c ->
+  run_log c t0 is = l1 ++ OPublish r now adv :: l2 -> rr_largest_ttl r = largest_of c (ghost_after c t0 l1).
+Proof. exact run_publish_largest. Qed.
+
+(* ... and that is determined by the distance carried into the round (l0 ends with the previous publish) and the
+   round's genuine answers alone: dist_fold replays Strategy's target_ttl bookkeeping over the answers *)
+Theorem c10_round_largest_from_answers : forall c t0 is l0 seg r now adv l2, Accept c ->
+  run_log c t0 is = l0 ++ seg ++ OPublish r now adv :: l2 -> no_publish seg -> round_start_log l0 ->
+  let g := ghost_after c t0 (l0 ++ seg) in
+  rr_largest_ttl r =
+    match dist_fold (g_dist (ghost_after c t0 l0)) (g_A g) with
+    | Some d => d
+    | None => match farthest (g_A g) with None => 0 | Some m => Z.min (next_ttl c (g_S g) - 1) (m + 1) end
+    end.
+Proof. exact round_largest_from_answers. Qed.
+
+(* the bookkeeping in closed form: when no OTHER host answered at or beyond a ttl the target answered at, nor at or
+   beyond the carried distance, the distance after the answers A is the smallest ttl the target answered at, or the
+   carried distance if smaller (dmin) *)
+Theorem c10_dist_fold_stable : forall A d0,
+  (forall u, In u (other_ttls A) -> (forall t, In t (target_ttls A) -> u < t) /\ (forall x, d0 = Some x -> u < x)) ->
+  dist_fold d0 A = dmin d0 (target_ttls A).
+Proof. exact dist_fold_stable. Qed.
+
+(* ENDS AT THE TARGET, per published round of any run: under that condition a round in which the target answered (or
+   that inherited a distance) reports the SMALLEST ttl the target answered at in that round, or the inherited distance *)
+Theorem c10_stable_round_ends_at_target : forall c t0 is l0 seg r now adv l2, Accept c ->
+  run_log c t0 is = l0 ++ seg ++ OPublish r now adv :: l2 -> no_publish seg -> round_start_log l0 ->
+  let A := g_A (ghost_after c t0 (l0 ++ seg)) in
+  let d0 := g_dist (ghost_after c t0 l0) in
+  (forall u, In u (other_ttls A) -> (forall t, In t (target_ttls A) -> u < t) /\ (forall x, d0 = Some x -> u < x)) ->
+  (target_ttls A <> [] \/ d0 <> None) ->
+  (In (rr_largest_ttl r) (target_ttls A) \/ d0 = Some (rr_largest_ttl r)) /\
+  (forall t, In t (target_ttls A) -> rr_largest_ttl r <= t) /\ (forall x, d0 = Some x -> rr_largest_ttl r <= x).
+Proof. exact stable_round_ends_at_target. Qed.
+
+(* without the condition the claim is false (and the code means it to be): the target answers ttl 3, another host then
+   answers ttl 4, the distance is forgotten and the round reports length 4 - hops() then ends one hop beyond the target *)
+Theorem c10_ends_at_target_unconditional_refuted :
+  exists c t0 is l1 r now adv l2, Accept c /\ run_log c t0 is = l1 ++ OPublish r now adv :: l2 /\
+    target_ttls (g_A (ghost_after c t0 l1)) = [3] /\ rr_largest_ttl r = 4.
+Proof. exact ends_at_target_unconditional_refuted. Qed.
+
+(* STABLE PATH of true length D (every genuine answer comes from the target iff the probe had ttl >= D): once the
+   target has answered a ttl-D probe, the round in progress and EVERY later round report exactly D *)
+Theorem c10_stable_path_true_distance : forall c t0 is D l1 r p sr l2 rr now adv l3, Accept c ->
+  stable c D (g_init t0) (run_log c t0 is) ->
+  run_log c t0 is = l1 ++ ORecv r :: l2 ++ OPublish rr now adv :: l3 ->
+  genuine c (g_S (ghost_after c t0 l1)) (g_A (ghost_after c t0 l1)) r = Some (p, sr) ->
+  sr_is_target sr = true -> p_ttl p = D ->
+  rr_largest_ttl rr = D.
+Proof. exact stable_path_true_distance. Qed.
+
+(* NOTHING ANSWERS: every round of the run reports length 0, and the hop table built from them is empty *)
+Theorem c10_silent_network_empty_table : forall c t0 is ms, Accept c -> (forall r, ~ In (ORecv r) (run_log c t0 is)) ->
+  let rs := pubs (fst (fst (run c t0 is))) in
+  Forall (fun r => rr_largest_ttl r = 0) rs /\
+  exists f, fs_run (flow_state_new ms) rs = Ok f /\ fs_highest_ttl f = 0 /\ fs_hops_view f = Ok [] /\
+            fs_highest_ttl_for_round f = 0.
+Proof. exact silent_network_empty_table. Qed.
+
+(* every run publishes rounds of the shape c10_strategy_shaped_table assumes *)
+Theorem c10_run_rounds_shaped : forall c t0 is, Accept c ->
+  let rs := pubs (fst (fst (run c t0 is))) in
+  Forall wf_round rs /\ Forall (contig (first_ttl c)) rs /\ covered 0 rs.
+Proof. exact run_rounds_shaped. Qed.
+
+(* END TO END, for every accepted configuration, every environment and every number of iterations: the hop table
+   built from the rounds of the run.  hops() never fails; its length is highest - first_ttl + 1 (0 when nothing was
+   ever reported); every hop carries its own ttl, from first_ttl up to the greatest length reported; the round marker
+   is the last round's length; when that is L > 0 the target hop is the hop tagged L, it is element L - first_ttl of
+   hops(), is_target holds for that element only and is_in_round for the elements up to it only *)
+Theorem c10_run_table : forall c t0 is ms, Accept c ->
+  let rs := pubs (fst (fst (run c t0 is))) in
+  exists f hs, fs_run (flow_state_new ms) rs = Ok f /\ fs_hops_view f = Ok hs /\
+    fs_highest_ttl f = fold_left (fun h r => Z.max h (rr_largest_ttl r)) rs 0 /\
+    Z.of_nat (length hs) = (if fs_highest_ttl f =? 0 then 0 else fs_highest_ttl f - first_ttl c + 1) /\
+    (forall k h, nth_error hs k = Some h -> h_ttl h = first_ttl c + Z.of_nat k /\ h_ttl h <= fs_highest_ttl f) /\
+    (rs <> [] -> fs_highest_ttl_for_round f = rr_largest_ttl (last rs {| rr_probes := []; rr_largest_ttl := 0; rr_reason := TargetFound |})) /\
+    (0 < fs_highest_ttl_for_round f ->
+       exists h, fs_target_hop f = Ok h /\ h_ttl h = fs_highest_ttl_for_round f /\
+         nth_error hs (Z.to_nat (fs_highest_ttl_for_round f - first_ttl c)) = Some h /\
+         forall k h', nth_error hs k = Some h' ->
+           (fs_is_target f h' = true <-> Z.of_nat k = fs_highest_ttl_for_round f - first_ttl c) /\
+           (fs_is_in_round f h' = true <-> Z.of_nat k <= fs_highest_ttl_for_round f - first_ttl c)).
+Proof. exact run_table. Qed.
+
+(* the window never shrinks over a history: hops() after a prefix of the history is a sub-range of hops() after all of it *)
+Theorem c10_window_monotone : forall rs f f', WInv f -> Forall wf_round rs -> fs_run f rs = Ok f' ->
+  fs_highest_ttl f <= fs_highest_ttl f' /\
+  (fs_lowest_ttl f <> 0 -> fs_lowest_ttl f' <> 0 /\ fs_lowest_ttl f' <= fs_lowest_ttl f).
+Proof. exact window_monotone. Qed.
+
+(* c10_run_table is about the table fed ALL rounds (the default flow).  A per-flow table receives only the rounds
+   attributed to that flow, and "every hop carries its own ttl / the target hop is tagged with the path length" does NOT
+   carry over: a round cut short by a clock jump after probing ttl 1, 2 over a new path is published with the carried
+   length 3; in the new flow's table hop 3 was never probed, target_hop() is that default hop and is_target holds for
+   no hop of hops()  (only the gap-free form c10_gap_free / c10_is_target_is_in_round applies per flow) *)
+Theorem c10_per_flow_target_tagged_refuted :
+  exists c t0 is s', Accept c /\ st_run (state_new 10 4) (pubs (fst (fst (run c t0 is)))) = Ok s' /\
+    map (fun r => (rr_largest_ttl r, ttls (rr_probes r))) (pubs (fst (fst (run c t0 is)))) = [(3, [1; 2; 3; 4]); (3, [1; 2])] /\
+    st_round_flow_id s' = 2 /\
+    let f := flow_or_new s' 2 in
+    fs_highest_ttl_for_round f = 3 /\ fs_target_hop f = Ok hop_default /\
+    map (fun h => (h_ttl h, h_sent h, fs_is_target f h)) (hw_hops (fs_hops_view f)) = [(1, 1, false); (2, 1, false); (0, 0, false)].
+Proof. exact per_flow_target_unprobed. Qed.
+
+(* non-vacuity: a history of the strategy's shape with first ttl 2 (Proofs/HopWindow.v), and the example runs of
+   Proofs/RunLogProps.v - the stable run reports lengths 3, 3 (the second round inherits the distance) *)
+Example c10_shaped_example :
+  let rs := [hw_round [2;3;4] 3; hw_round [2;3] 3; hw_round [2;3;4;5] 5] in
+  Forall wf_round rs /\ Forall (contig 2) rs /\ covered 0 rs /\
+  map h_ttl (hw_hops (fs_hops_view (hw_get (fs_run (flow_state_new 10) rs)))) = [2;3;4;5] /\
+  fs_highest_ttl_for_round (hw_get (fs_run (flow_state_new 10) rs)) = 5.
+Proof. exact hw_shaped_example. Qed.
+
+Example c10_stable_run_example :
+  map rr_largest_ttl (pubs (fst (fst (run rl_ex_cfg 0 rl_ex_ins)))) = [3; 3] /\
+  (let L := run_log rl_ex_cfg 0 rl_ex_ins in
+   round_start_log [] /\ no_publish (firstn 13 L) /\
+   target_ttls (g_A (ghost_after rl_ex_cfg 0 (firstn 13 L))) = [3] /\
+   other_ttls (g_A (ghost_after rl_ex_cfg 0 (firstn 13 L))) = [1; 2]).
+Proof. exact te_stable_example. Qed.
+
+Example c10_table_of_example_run :
+  let f := hw_get (fs_run (flow_state_new 10) (pubs (fst (fst (run rl_ex_cfg 0 rl_ex_ins))))) in
+  map h_ttl (hw_hops (fs_hops_view f)) = [1; 2; 3] /\ fs_highest_ttl_for_round f = 3 /\
+  map (fs_is_target f) (hw_hops (fs_hops_view f)) = [false; false; true].
+Proof. vm_compute. repeat split; reflexivity. Qed.
+
+(* the hypotheses of c10_stable_path_true_distance (last round of the stable example run) and of
+   c10_silent_network_empty_table (a run in which nothing answers) are satisfiable *)
+Example c10_stable_path_instance :
+  let L := run_log rl_ex_cfg 0 rl_ex_ins in
+  exists l1 r p sr l2 rr now adv l3, stable rl_ex_cfg 3 (g_init 0) L /\
+    L = l1 ++ ORecv r :: l2 ++ OPublish rr now adv :: l3 /\
+    genuine rl_ex_cfg (g_S (ghost_after rl_ex_cfg 0 l1)) (g_A (ghost_after rl_ex_cfg 0 l1)) r = Some (p, sr) /\
+    sr_is_target sr = true /\ p_ttl p = 3 /\ l3 = [] /\ rr_largest_ttl rr = 3.
+Proof. exact te_stable_path_instance. Qed.
+
+Example c10_silent_example :
+  (forall r, ~ In (ORecv r) (run_log rl_ex_cfg 0 te_silent_ins)) /\
+  map (fun r => (rr_largest_ttl r, ttls (rr_probes r))) (pubs (fst (fst (run rl_ex_cfg 0 te_silent_ins)))) = [(0, [1; 2])].
+Proof. exact te_silent_example. Qed.
